@@ -452,7 +452,11 @@ void tickit_term_set_size(TickitTerm *tt, int lines, int cols)
     tt->cols  = cols;
 
     TickitResizeEventInfo info = { .lines = lines, .cols = cols };
+
+    /* A handler may drop the last reference to the terminal */
+    tickit_term_ref(tt);
     run_events(tt, TICKIT_TERM_ON_RESIZE, &info);
+    tickit_term_unref(tt);
   }
 }
 
@@ -748,12 +752,17 @@ static void got_key(TickitTerm *tt, TermKey *tk, TermKeyKey *key)
 
 void tickit_term_emit_key(TickitTerm *tt, TickitKeyEventInfo *info)
 {
+  /* A handler may drop the last reference to the terminal */
+  tickit_term_ref(tt);
   run_events_whilefalse(tt, TICKIT_TERM_ON_KEY, info);
+  tickit_term_unref(tt);
 }
 
 void tickit_term_emit_mouse(TickitTerm *tt, TickitMouseEventInfo *info)
 {
+  tickit_term_ref(tt);
   run_events_whilefalse(tt, TICKIT_TERM_ON_MOUSE, info);
+  tickit_term_unref(tt);
 }
 
 static void get_keys(TickitTerm *tt, TermKey *tk)
@@ -785,6 +794,10 @@ static void get_keys(TickitTerm *tt, TermKey *tk)
 
 void tickit_term_input_push_bytes(TickitTerm *tt, const char *bytes, size_t len)
 {
+  /* The key, mouse and resize handlers run from here may drop the last
+   * reference to the terminal, and its termkey instance with it */
+  tickit_term_ref(tt);
+
   check_resize(tt);
 
   TermKey *tk = get_termkey(tt);
@@ -808,16 +821,22 @@ void tickit_term_input_push_bytes(TickitTerm *tt, const char *bytes, size_t len)
     if(!pushed && termkey_get_buffer_remaining(tk) == space)
       break; /* the buffer is full of a single unfinished sequence */
   }
+
+  tickit_term_unref(tt);
 }
 
 void tickit_term_input_readable(TickitTerm *tt)
 {
+  tickit_term_ref(tt);
+
   check_resize(tt);
 
   TermKey *tk = get_termkey(tt);
   termkey_advisereadable(tk);
 
   get_keys(tt, tk);
+
+  tickit_term_unref(tt);
 }
 
 static int get_timeout(TickitTerm *tt)
@@ -859,15 +878,19 @@ static void timedout(TickitTerm *tt)
 
 int tickit_term_input_check_timeout_msec(TickitTerm *tt)
 {
+  tickit_term_ref(tt);
+
   check_resize(tt);
 
   int msec = get_timeout(tt);
 
-  if(msec != 0)
-    return msec;
+  if(msec == 0) {
+    timedout(tt);
+    msec = -1;
+  }
 
-  timedout(tt);
-  return -1;
+  tickit_term_unref(tt);
+  return msec;
 }
 
 void tickit_term_input_wait_msec(TickitTerm *tt, long msec)
@@ -896,6 +919,8 @@ void tickit_term_input_wait_msec(TickitTerm *tt, long msec)
   FD_SET(fd, &readfds);
   int ret = select(fd + 1, &readfds, NULL, NULL, msec > -1 ? &timeout : NULL);
 
+  tickit_term_ref(tt);
+
   if(ret == 0)
     timedout(tt);
   else if(ret > 0)
@@ -904,6 +929,8 @@ void tickit_term_input_wait_msec(TickitTerm *tt, long msec)
   check_resize(tt);
 
   get_keys(tt, tk);
+
+  tickit_term_unref(tt);
 }
 
 void tickit_term_input_wait_tv(TickitTerm *tt, const struct timeval *timeout)
